@@ -972,5 +972,177 @@ def u_rescale(ctx):
         ctx.require(m, 20)
 
 
+# ------------------------------------------------------------------ TimeLimit
+NS_CHAIN = 12
+
+
+def _chain(L, kind, two_starts):
+    """Chain MDP 0 -> 1 -> ... whose inner episode ends (terminal or inner truncation) on entering state L."""
+    from vlib.mdp import FiniteMDP
+
+    P = np.minimum(np.arange(NS_CHAIN)[:, None] + 1, NS_CHAIN - 1).repeat(2, axis=1)
+    R = np.arange(NS_CHAIN * 2, dtype=np.float32).reshape(NS_CHAIN, 2) / 10
+    end = np.zeros(NS_CHAIN, bool)
+    end[L] = True
+    none = np.zeros(NS_CHAIN, bool)
+    starts = [0, 1] if (two_starts and L >= 2) else [0, 0]
+    return FiniteMDP(P, R, end if kind == "terminal" else none, starts, trunc=end if kind == "truncate" else none)
+
+
+def _tl_episode_walk(ctx, W, N, L, kind, wrap, n_eps, key0, inner_of=lambda s: s.unwrapped):
+    """Drive W through `step`; W = (wrappers around) TimeLimit(chain(L, kind), N). One case per episode."""
+    import jax.numpy as jnp
+
+    def counts(state):
+        out, s = [], state
+        while hasattr(s, "env_state"):
+            if hasattr(s, "step_count"):
+                out.append(int(s.step_count))
+            s = s.env_state
+        return out
+
+    state, _, _ = W.reset(key=ctx.key(key0))
+    ctx.monitor("timelimit_resets")
+    ep, t, k = 0, 0, 0
+    s_in = int(inner_of(state).s)
+    start = s_in
+    if any(c != 0 for c in counts(state)):
+        ctx.violation("timelimit-count-not-zero-after-reset", {"N": N, "counts": counts(state)})
+    ok = True
+    while ep < n_eps and k < 200:
+        k += 1
+        state, _, r, term, trunc, _ = W.step(state, jnp.asarray(k % 2, jnp.int32), key=ctx.key(key0 + k))
+        ctx.monitor("timelimit_steps")
+        t += 1
+        s_next = s_in + 1
+        inner_end = s_next == L
+        want_term = inner_end and kind == "terminal"
+        want_trunc = (inner_end and kind == "truncate") or t >= N
+        if bool(term) != want_term:
+            ok = False
+            ctx.violation("timelimit-changes-termination", {"N": N, "L": L, "kind": kind, "wrap": wrap, "episode": ep,
+                                                            "step_in_episode": t, "got": bool(term), "want": want_term})
+        if bool(trunc) != want_trunc:
+            ok = False
+            if bool(trunc) and t < N:
+                key = "timelimit-truncates-early"
+            elif not bool(trunc) and t >= N:
+                key = "timelimit-truncates-late"
+            else:
+                key = "timelimit-drops-inner-truncation"
+            ctx.violation(key, {"N": N, "L": L, "inner_end": kind, "wrap": wrap, "episode": ep, "start": start,
+                                "step_in_episode": t, "got": bool(trunc), "want": want_trunc})
+        if t >= N and not (inner_end):
+            ctx.monitor("timelimit_limit_decided")
+        if inner_end and t < N:
+            ctx.monitor("timelimit_inner_end_before_limit")
+        if want_term or want_trunc:
+            # `step` has reset: the returned state is the start of a fresh episode
+            ctx.case({"N": N, "L": L, "inner_end": kind, "wrap": wrap, "episode": ep, "start": start, "len": t},
+                     nontrivial=True, cls=f"timelimit/{wrap}/{'limit' if t >= N else 'inner'}-ends")
+            cs, inner = counts(state), inner_of(state)
+            if any(c != 0 for c in cs) or int(inner.t) != 0:
+                ok = False
+                ctx.violation("timelimit-count-not-restarted-on-reset", {"N": N, "L": L, "episode": ep, "counts": cs,
+                                                                         "inner_t": int(inner.t)})
+            ctx.monitor("timelimit_episode_boundaries")
+            ep, t = ep + 1, 0
+            s_in = start = int(inner.s)
+        else:
+            s_in = s_next
+            cs = counts(state)
+            if any(c != t for c in cs):
+                ok = False
+                ctx.violation("timelimit-count-wrong-mid-episode", {"N": N, "L": L, "t": t, "counts": cs})
+        if not ok and ep >= 1:
+            break
+    return ok
+
+
+def u_timelimit(ctx):
+    import equinox as eqx
+    import jax
+    import jax.numpy as jnp
+    from jax import random as jr
+    from lerax import wrapper as lw
+
+    n_eps = ctx.n(3, 5)
+    # --- A: N x L x inner end kind through `step`, >= 3 consecutive episodes
+    kb = 0
+    for N in range(1, 9):
+        for L in range(1, 11):
+            for kind in ("terminal", "truncate"):
+                kb += 1
+                env = _chain(L, kind, two_starts=(N + L) % 2 == 0)
+                try:
+                    W = lw.TimeLimit(env, N)
+                except Exception as e:
+                    ctx.violation("wrapper-not-constructible-TimeLimit", {"N": N, "error": f"{type(e).__name__}: {e}"[:300]})
+                    continue
+                ctx.monitor("constructed_TimeLimit")
+                _tl_episode_walk(ctx, W, N, L, kind, "plain", n_eps, 300 * kb)
+    # --- B: TimeLimit inside / outside other wrappers, nested limits
+    wraps = {
+        "identity-outside": lambda e, N: lw.Identity(lw.TimeLimit(e, N)),
+        "identity-inside": lambda e, N: lw.TimeLimit(lw.Identity(e), N),
+        "reward-obs-outside": lambda e, N: lw.ClipObservation(lw.TransformReward(lw.TimeLimit(e, N), lambda r: -r)),
+        "nested-looser-outside": lambda e, N: lw.TimeLimit(lw.TimeLimit(e, N), N + 2),
+        "nested-tighter-outside": lambda e, N: lw.TimeLimit(lw.TimeLimit(e, N + 3), N),
+    }
+    for wname, mk in wraps.items():
+        for N, L, kind in [(1, 3, "terminal"), (2, 5, "truncate"), (3, 3, "terminal"), (4, 2, "terminal"),
+                           (5, 9, "truncate"), (7, 10, "terminal")][: ctx.n(4, 6)]:
+            kb += 1
+            try:
+                W = mk(_chain(L, kind, True), N)
+            except Exception as e:
+                ctx.violation("timelimit-stack-not-constructible", {"wrap": wname, "error": f"{type(e).__name__}: {e}"[:300]})
+                continue
+            _tl_episode_walk(ctx, W, N, L, kind, wname, n_eps, 300 * kb)
+    # --- C: functional API: truncate(state after k transitions) is (k >= N), on an env that never ends by itself
+    env = _chain(NS_CHAIN - 1, "terminal", False)
+    for N in range(1, ctx.n(6, 9)):
+        W = lw.TimeLimit(env, N)
+        s = W.initial(key=ctx.key(9000 + N))
+        for k in range(0, N + 1):
+            got = bool(W.truncate(s))
+            ctx.monitor("timelimit_functional_truncate_checks")
+            ctx.case({"api": "functional", "N": N, "k": k}, nontrivial=(k >= N - 1), cls="timelimit/functional")
+            if got != (k >= N):
+                ctx.violation("timelimit-truncates-early" if got else "timelimit-truncates-late",
+                              {"api": "functional", "N": N, "transitions": k, "got": got, "step_count": int(s.step_count)})
+            if int(s.step_count) != k:
+                ctx.violation("timelimit-count-wrong-mid-episode", {"api": "functional", "N": N, "k": k, "count": int(s.step_count)})
+            s = W.transition(s, jnp.asarray(0), key=ctx.key(k))
+    # --- D: vmapped environments keep their own counters (episodes de-synchronise through two start states)
+    E = 6
+    for N, L in [(3, 4), (2, 6), (5, 3)][: ctx.n(2, 3)]:
+        W = lw.TimeLimit(_chain(L, "terminal", True), N)
+        states = jax.vmap(lambda k: W.initial(key=k))(jr.split(ctx.key(9500 + N), E))
+        vstep = eqx.filter_jit(jax.vmap(lambda s, a, k: W.step(s, a, key=k)))
+        t = np.zeros(E, int)
+        s_in = np.asarray(states.env_state.s).copy()
+        for k in range(ctx.n(20, 40)):
+            states, _, _, term, trunc, _ = vstep(states, jnp.zeros(E, jnp.int32), jr.split(ctx.key(9600 + 50 * N + k), E))
+            t += 1
+            s_in = s_in + 1
+            want_term = s_in == L
+            want_trunc = t >= N
+            ctx.monitor("timelimit_vmap_steps", E)
+            if not np.array_equal(np.asarray(trunc), want_trunc) or not np.array_equal(np.asarray(term), want_term):
+                ctx.violation("timelimit-vmap-envs-share-count", {"N": N, "L": L, "k": k, "trunc": np.asarray(trunc),
+                                                                  "want_trunc": want_trunc, "term": np.asarray(term), "want_term": want_term})
+                break
+            done = want_term | want_trunc
+            if done.any() and not done.all():
+                ctx.monitor("timelimit_vmap_desynchronised_boundaries")
+            t[done] = 0
+            s_in = np.where(done, np.asarray(states.env_state.s), s_in)
+            ctx.case({"api": "vmap", "N": N, "L": L, "k": k}, nontrivial=bool(done.any()), cls="timelimit/vmap")
+    for m, k in (("timelimit_limit_decided", 50), ("timelimit_inner_end_before_limit", 50), ("timelimit_episode_boundaries", 200),
+                 ("timelimit_functional_truncate_checks", 10), ("timelimit_vmap_desynchronised_boundaries", 1)):
+        ctx.require(m, k)
+
+
 def run_unit(name, ctx):
     globals()[f"u_{name}"](ctx)
